@@ -43,7 +43,7 @@ ConfClauses(os, e, o) ==
    {c \in {"not-enabled", "raise", "value", "bool", "state-count", "state-self", "state-new", "state-other", "len",
            "toml-view", "repr-view", "argument-mutated", "impure"} :
       CASE c = "not-enabled" -> ~Can(os, e)
-        [] c = "raise"       -> o.exc # r.res.exc
+        [] c = "raise"       -> r.res.exc # "unspecified" /\ o.exc # r.res.exc
         [] c = "value"       -> o.exc = "" /\ r.res.exc = "" /\ e.op \in {"get", "getdef", "consume"} /\ NRes(o.val) # r.res.val
         [] c = "bool"        -> o.exc = "" /\ r.res.exc = "" /\ e.op \in {"eq", "getdef"} /\ o.b # r.res.b
         [] c = "state-count" -> ~same
